@@ -40,10 +40,18 @@ def node_ctor(ex, path, ca, node):
     return [(path, n)]
 
 
+STR_OF = z3.Function("STR_OF", Int, Str)  # str(x) of a non-str value handed to pydot as a name: nothing is known about it
+
+
+def _name(v):
+    from pyvc.core import ref_of
+    return v.e if isinstance(v, S) else STR_OF(ref_of(v))
+
+
 def edge_ctor(ex, path, ca, node):
     e = path.alloc("PEdge", "pedge")
-    path.store("PEdge.src", e.e, ca.pos[0].e)
-    path.store("PEdge.dst", e.e, ca.pos[1].e)
+    path.store("PEdge.src", e.e, _name(ca.pos[0]))
+    path.store("PEdge.dst", e.e, _name(ca.pos[1]))
     path.store("PEdge.label", e.e, _kw_str(path, ca, "label"))
     path.store("PEdge.origin", e.e, NONE)
     return [(path, e)]
@@ -92,7 +100,8 @@ GLOBAL_NAMES["pydot.Node"] = Py(("class", "PNode"))
 GLOBAL_NAMES["pydot.Edge"] = Py(("class", "PEdge"))
 
 ClassModel("DiagMachine", fields={"states": "States", "initial_state": "State"},
-           props={"current_state": C("diagram:machine.current_state")})
+           props={"current_state": C("diagram:machine.current_state"),
+                  "current_state_value": C("diagram:machine.current_state_value")})
 ClassModel(
     "DotGraphMachine",
     fields={"machine": "DiagMachine", "font_name": "str", "state_font_size": "str", "state_active_penwidth": "int",
@@ -117,6 +126,20 @@ class DiagCurrentState(Contract):
 
     def post(self, s0, s, a, r):
         return {"view-of-the-current-state": z3.And(r.e != NONE, s0.sel("IState._state", r) == CUR_STATE)}
+
+
+@register
+class DiagCurrentStateValue(Contract):
+    """ASSUMED here (proved under C10): machine.current_state_value is the current state's value — any
+    value a state may carry, falsy ones (0, '') included."""
+    qualnames = ["diagram:machine.current_state_value"]
+    params = [("self", "DiagMachine")]
+    returns = "Val"
+    modifies = []
+    trusted = True
+
+    def post(self, s0, s, a, r):
+        return {"value-of-the-current-state": r.e == s0.sel("State.value", CUR_STATE)}
 
 
 def _trusted(name, params, returns, post=None, modifies=()):
